@@ -300,3 +300,24 @@ _ADD5 = {
 for _k, (_t, _x) in _ADD5.items():
     CLAIMS[_k]['technique'] += _t
     CLAIMS[_k]['text'] += _x
+
+# rules of DESIGN.md 12.11 (round 4)
+_ADD6 = {
+ 'C01': ('; leading-dimension agreement', ' Each dense array of ?gstrs is addressed with one leading dimension (column addresses and BLAS operand pairs agree).'),
+ 'C03': ('; relax twins; fixupL relabelling rule', ' The relaxed-supernode routines agree with their ILU twins; an early return of fixupL is taken only for an empty matrix.'),
+ 'C05': ('; refine group; leading-dimension agreement; fixupL relabelling rule', ' ?gsrfs receives the same (storage-adjusted) transpose flag as the solve; one leading dimension per dense array in ?gstrs / ?gsrfs / sp_?gemm; fixupL relabels L for every matrix that has a column.'),
+ 'C07': ('; relaxed-supernode capacity', ' The LUSUP demand in front of a relaxed supernode covers every column the unchecked storing loop writes.'),
+ 'C09': ('; complete in-place shift', ' The in-place shift of the caller workspace copies every byte (no residue of earlier buffer contents reaches the factors).'),
+ 'C10': ('; COLAMD downward slots; sentinel of the first-column table', ' Order slots handed out from the top use the pre-decremented cursor; the sentinel that primes firstcol[] is the bound of the recorded values.'),
+ 'C11': ('; ratios of clamped extremes', ' rowcnd / colcnd are ratios of the clamped extremes (the factors are reciprocals of the clamped maxima).'),
+ 'C12': ('; complex 1-norm sums true moduli', ' scsum1 / dzsum1 add c_abs / z_abs of the elements.'),
+ 'C13': ('; column-sum pairing', ' Every sum over the entries of a stored column pairs the column index with the row index (one for the vector, one for the target).'),
+ 'C15': ('; empty-column rule', ' An empty L column always starts a new supernode in ilu_?column_dfs (supernodes keep at least as many rows as columns).'),
+ 'C17': ('; heap-position typestate; infinite cost for zero magnitudes', ' In revisiting column scans the heap routines are reached only behind the false edge of the finalised-row test; a zero magnitude receives a cost derived from the overflow threshold.'),
+ 'C18': ('; else-sides of non-row conditions narrow', ' A precondition reachable only on the else side of a condition that is not itself a screening row counts as unscreened.'),
+ 'C19': ('; relaxed-supernode capacity; reuse tail', ' Relaxed-supernode demand rule as in C07; the reuse tail of ?gstrf re-attaches every growable array.'),
+ 'C20': ('; sp_preorder oracle', ' The perm_c kept in the handle is post o perm_c (R3 oracle of sp_preorder).'),
+}
+for _k, (_t, _x) in _ADD6.items():
+    CLAIMS[_k]['technique'] += _t
+    CLAIMS[_k]['text'] += _x
